@@ -1,6 +1,7 @@
 package main
 
 import (
+	"bytes"
 	"encoding/json"
 	"math/rand"
 	"path/filepath"
@@ -62,7 +63,7 @@ func (r *runner) runMutations(cases []json.RawMessage, n int, start int) {
 			Fmt    string        `json:"fmt"`
 			Faults []interface{} `json:"faults"`
 		}
-		if json.Unmarshal(raw, &c) != nil || len(c.Faults) > 0 || c.Obj.K == "dist" {
+		if json.Unmarshal(raw, &c) != nil || len(c.Faults) > 0 {
 			continue
 		}
 		k := c.Obj.K + "/" + c.Obj.Cls + "/" + c.Obj.St + "/" + c.Fmt
@@ -87,6 +88,10 @@ func (r *runner) runMutations(cases []json.RawMessage, n int, start int) {
 			if item-1 < start {
 				continue
 			}
+			if c.Obj.K == "dist" {
+				r.mutateDist(item-1, &c, cases[ci], mseed)
+				continue
+			}
 			et := etypes[c.Types[ti]]
 			r.jr.at(item-1, 0, "mutate-build")
 			src, err := buildObj(et, &c.Obj)
@@ -103,7 +108,14 @@ func (r *runner) runMutations(cases []json.RawMessage, n int, start int) {
 			r.count("mutations")
 			mc := c
 			mc.Faults = []fault{{F: "ByteMutation"}}
-			raw, _ := json.Marshal(vh.M{"case": cases[ci], "mutation_seed": mseed, "mutated": string(mut)})
+			// the replay case: the same object with the mutated document attached
+			var gen map[string]interface{}
+			json.Unmarshal(cases[ci], &gen)
+			gen["faults"] = []interface{}{map[string]interface{}{"f": "ByteMutation"}}
+			gen["types"] = []string{et.Name}
+			gen["expect"] = "error-or-wellformed"
+			gen["mutated"] = string(mut)
+			raw, _ := json.Marshal(gen)
 			r.judgeDamaged(&mc, raw, et, dec, err, pm, mut, false)
 		}
 	}
@@ -115,4 +127,34 @@ func hashStr(s string) uint32 {
 		h = (h ^ uint32(s[i])) * 16777619
 	}
 	return h
+}
+
+// byte-level mutation of an exported distribution configuration
+func (r *runner) mutateDist(item int, c *tcase, raw json.RawMessage, mseed int64) {
+	r.jr.at(item, 0, "mutate-dist-build")
+	var d distObj
+	var err error
+	if p := vh.Try(func() { d, err = buildDist(c.Obj.Cfg) }); p != "" || err != nil {
+		return
+	}
+	var doc []byte
+	if p := vh.Try(func() {
+		var buf bytes.Buffer
+		err = d.basic().ExportConfig().WriteJson(&buf)
+		doc = buf.Bytes()
+	}); p != "" || err != nil {
+		return
+	}
+	mut := mutateBytes(rand.New(rand.NewSource(mseed)), doc)
+	r.jr.at(item, 0, "mutate-dist-import")
+	imp, err, pm := importAs(d, mut)
+	r.count("mutations")
+	mc := *c
+	mc.Faults = []fault{{F: "ByteMutation"}}
+	var gen map[string]interface{}
+	json.Unmarshal(raw, &gen)
+	gen["faults"] = []interface{}{map[string]interface{}{"f": "ByteMutation"}}
+	gen["mutated"] = string(mut)
+	nraw, _ := json.Marshal(gen)
+	r.judgeDist(&mc, nraw, d, imp, err, pm, mut)
 }
